@@ -97,6 +97,9 @@ def check(run, F, tier):
                 for it in items:
                     src = it[1] if isinstance(it, tuple) and len(it) > 1 and isinstance(it[1], str) else None
                     if src is not None:
+                        bare = src.replace("*", "").replace("$", "").replace("deref(", "")
+                        if bare.startswith("(vec,())") or bare.startswith("(arr,())"):
+                            continue        # an empty vector / array literal built on the path (`map_or_else(Vec::new, ..)`): no bytes
                         core = src.lstrip("*$").replace("deref(", "").rstrip(")")
                         # `len(src) eq 0` / `(cmp,Eq,0,len(src)) eq 1` among the pair's guards: an empty source contributes nothing
                         if ("(len,%s) eq 0" % core) in txt or ("(len,$%s) eq 0" % core.lstrip("$")) in txt:
